@@ -81,11 +81,12 @@ func (e *env) nodeConfigSweep(t *testing.T) {
 		for _, mg := range []struct {
 			v any
 			n uint64
-		}{{nil, 0}, {uint64(0), 0}, {uint64(1), 1}, {uint64(200000), 200000}, {uint64(1<<64 - 1), 1<<64 - 1}} {
+		}{{nil, 0}, {uint64(0), 0}, {uint64(1), 1}, {uint64(200000), 200000}, {fxcfg.DefaultBypassMinFee().MsgMaxGasUsage, fxcfg.DefaultBypassMinFee().MsgMaxGasUsage}, {uint64(1<<64 - 1), 1<<64 - 1}} {
 			cfgs = append(cfgs, nodeCfg{types: ty.v, maxGas: mg.v, typeList: ty.list, maxB: mg.n})
 		}
 	}
 	e.out.Stats.Extra["nodeconfig_configurations"] = len(cfgs)
+	e.out.Reset("nodeconfig")
 	for _, cfg := range cfgs {
 		opts := viper.New()
 		opts.Set(flags.FlagChainID, chainID)
@@ -151,11 +152,13 @@ func (e *env) nodeConfigSweep(t *testing.T) {
 		for _, urls := range lists {
 			n := uint64(len(urls))
 			base := n * cfg.maxB // wraps like the code; the specification below refuses to judge a wrapped product
-			gases := []uint64{1, base - 1, base, base + 1, 150000, 10_000_000}
+			gases := []uint64{0, 1, base - 1, base, base + 1, 150000, 9_000_000, (1<<64 - 1) / 2}
+			seenGas := map[uint64]bool{}
 			for _, gas := range gases {
-				if gas == 0 || gas > 25_000_000 {
+				if seenGas[gas] {
 					continue
 				}
+				seenGas[gas] = true
 				req := ceilMul(minPrice, gas)
 				for _, feeKind := range []string{"none", "below", "exact"} {
 					var fee sdk.Coins
@@ -202,6 +205,14 @@ func (e *env) nodeConfigSweep(t *testing.T) {
 					}
 					fc := feeCase{msgs: msgs, exempt: cfg.typeList, maxB: cfg.maxB, gas: gas, fee: fee, prices: minGas}
 					want, ok := specVerdict(fc, true)
+					if !strings.HasPrefix(obs, "other") {
+						// the same question to the Lean model of the WIRED checker (Gen.C20.wiredCheckTxFeees, translated from app.go)
+						cm := "absent"
+						if cfg.maxGas != nil {
+							cm = fmt.Sprint(cfg.maxB)
+						}
+						e.out.Emit(strings.Replace(fc.op("c"), "fee c ", "nodefee "+cm+" ", 1), obs)
+					}
 					e.out.Count("nodeconfig-" + obs)
 					allEx := true
 					for _, u := range urls {
